@@ -343,7 +343,7 @@ func c20Classify(c c20Case) (nontrivial bool, labels []string) {
 	}
 	set := map[string]bool{}
 	add := func(l string) { set[l] = true }
-	maxDepth, files, lookalikes, entries := 0, 0, 0, 0
+	maxDepth, lookalikes, entries := 0, 0, 0
 	twoInFile := false
 	syms := map[string]int{}
 	funcDirs := map[string]map[string]bool{}
@@ -375,7 +375,6 @@ func c20Classify(c c20Case) (nontrivial bool, labels []string) {
 			add("empty-dir")
 		}
 		for _, f := range d.Files {
-			files++
 			switch {
 			case f.Junk:
 				add("junk-file")
@@ -495,9 +494,6 @@ func c20Classify(c c20Case) (nontrivial bool, labels []string) {
 		add("entries-4..10")
 	default:
 		add("entries-11+")
-	}
-	if files >= 9 {
-		add("files-9+")
 	}
 	if lookalikes == 0 {
 		add("no-lookalike")
